@@ -1645,6 +1645,8 @@ class Exec:
                         val = src.items[k]
                     elif k.startswith("has_"):
                         val = B(k[4:] in src.items)
+                if isinstance(src, HTuple) and re.fullmatch(r"t\d+", k) and int(k[1:]) < len(src.items):
+                    val = src.items[int(k[1:])]     # a tuple appended to a list of records with fields t0, t1, ...
                 if isinstance(val, SV):
                     if typ in self.SORTS and val.kind == typ:
                         term = val.term
@@ -2227,6 +2229,14 @@ class Exec:
             m = re.fullmatch(r"list\[(int|str|val)\]", lt)
             if m:
                 self.locals[s.targets[0].id] = self.alloc(HList(m.group(1), z3.Empty(ops.seq_sort(m.group(1)))))
+            elif re.fullmatch(r"objlist\[(\w+)\]", lt):
+                # an empty list that will hold records (tuples / dict literals) of a declared shape: struct-of-arrays with every declared field materialised
+                cls = re.fullmatch(r"objlist\[(\w+)\]", lt).group(1)
+                lst = HObjList(cls, self.facts.cls(cls), z3.IntVal(0), fresh_name(s.targets[0].id))
+                ref = self.alloc(lst)
+                for attr in self.contract.class_fields.get(cls, {}):
+                    self.elem_field_array(lst, attr)
+                self.locals[s.targets[0].id] = ref
             else:
                 m = re.fullmatch(r"alist\[(int|str|val)\]", lt)
                 self.locals[s.targets[0].id] = self.new_alist(m.group(1), fresh_name(s.targets[0].id), symbolic=False)
